@@ -215,6 +215,81 @@ static void case_c08pre(const args_t *a, long c, rng_t *r)
 	rmdir(d);
 }
 
+/* ------------------------------------------------------------------ keys whose lengths differ by 2^31 and more (thorough, -O2 build): the ordering
+ * gate must still order a key against its own extension / prefix by length */
+static void case_c08big(const args_t *a, long c, rng_t *r)
+{
+	(void)a; (void)r;
+	if (c % 5 == 4) {
+		/* key and value each fit 32 bits, their sum does not: the entry is legal (the lengths are stored separately) */
+		const uint64_t LV = (uint64_t)UINT32_MAX - 8;
+		uint8_t *val = calloc(1, LV);
+		if (!val) { inconclusive("cannot allocate 4 GiB"); return; }
+		fflush(stdout);
+		pid_t p2 = fork();
+		if (p2 == 0) {
+			int nfd = open("/dev/null", O_WRONLY); dup2(nfd, 2);
+			struct mtbl_writer_options *wo = mtbl_writer_options_init();
+			mtbl_writer_options_set_compression(wo, MTBL_COMPRESSION_NONE);
+			struct mtbl_writer *w = mtbl_writer_init_fd(open("/dev/null", O_WRONLY), wo);
+			if (!w) _exit(9);
+			if (mtbl_writer_add(w, (const uint8_t *)"a", 1, (const uint8_t *)"v", 1) != mtbl_res_success) _exit(33);
+			if (mtbl_writer_add(w, (const uint8_t *)"key-of-16-bytes.", 16, val, LV) != mtbl_res_success) _exit(34);
+			if (mtbl_writer_add(w, (const uint8_t *)"key-of-16-bytes.", 16, val, 3) != mtbl_res_failure) _exit(35);
+			if (mtbl_writer_add(w, (const uint8_t *)"z", 1, (const uint8_t *)"v", 1) != mtbl_res_success) _exit(36);
+			mtbl_writer_destroy(&w);
+			_exit(0);
+		}
+		int st2; waitpid(p2, &st2, 0);
+		if (WIFEXITED(st2) && WEXITSTATUS(st2) == 35) viol("C08/non-increasing-key-accepted", "equal key accepted after an entry with a %" PRIu64 "-byte value", LV);
+		else if (WIFEXITED(st2) && WEXITSTATUS(st2) > 32) viol("C08/increasing-key-refused", "a strictly greater key was refused (step %d): 16-byte key with a value of %" PRIu64 " bytes (key + value > UINT32_MAX, each below)", WEXITSTATUS(st2) - 32, LV);
+		else if (!(WIFEXITED(st2) && WEXITSTATUS(st2) == 0)) viol("C08/abort-on-entry-near-4GiB", "writer process died with status 0x%x on a 16-byte key with a value of %" PRIu64 " bytes", st2, LV);
+		free(val);
+		STAT("c08big.key_plus_value_over_UINT32_MAX"); STAT("c08big.cases");
+		if (want_sample()) sample("c08big: 16-byte key with a value of %" PRIu64 " bytes between two small entries, writer on /dev/null", LV);
+		case_hash(LV);
+		return;
+	}
+	const uint64_t LK = (1ULL << 31) + 1 + (uint64_t)(c / 2) * 4096;
+	uint8_t *big = calloc(1, LK + 1);
+	if (!big) { inconclusive("cannot allocate 2 GiB"); return; }
+	int reverse = (int)(c % 2);
+	fflush(stdout);
+	pid_t pid = fork();
+	if (pid == 0) {
+		int nfd = open("/dev/null", O_WRONLY); dup2(nfd, 2);
+		struct mtbl_writer_options *wo = mtbl_writer_options_init();
+		mtbl_writer_options_set_compression(wo, MTBL_COMPRESSION_NONE);
+		struct mtbl_writer *w = mtbl_writer_init_fd(open("/dev/null", O_WRONLY), wo);
+		if (!w) _exit(9);
+		int bad = 0;
+		if (!reverse) {
+			if (mtbl_writer_add(w, (const uint8_t *)"", 0, (const uint8_t *)"v", 1) != mtbl_res_success) bad |= 1;      /* first key */
+			if (mtbl_writer_add(w, big, LK, (const uint8_t *)"v", 1) != mtbl_res_success) bad |= 2;                   /* "" < 00 x LK: must be accepted */
+			if (mtbl_writer_add(w, (const uint8_t *)"", 0, (const uint8_t *)"v", 1) != mtbl_res_failure) bad |= 4;      /* proper prefix of the last key: refused */
+			if (mtbl_writer_add(w, big, LK, (const uint8_t *)"v", 1) != mtbl_res_failure) bad |= 8;                   /* equal: refused */
+			if (mtbl_writer_add(w, big, LK + 1, (const uint8_t *)"v", 1) != mtbl_res_success) bad |= 16;              /* one byte longer: accepted */
+		} else {
+			if (mtbl_writer_add(w, big, LK, (const uint8_t *)"v", 1) != mtbl_res_success) bad |= 1;
+			if (mtbl_writer_add(w, big, 1, (const uint8_t *)"v", 1) != mtbl_res_failure) bad |= 4;                    /* a 1-byte prefix, 2^31 bytes shorter: refused */
+			if (mtbl_writer_add(w, (const uint8_t *)"", 0, (const uint8_t *)"v", 1) != mtbl_res_failure) bad |= 4;
+			if (mtbl_writer_add(w, (const uint8_t *)"\x01", 1, (const uint8_t *)"v", 1) != mtbl_res_success) bad |= 16;  /* 01 > 00 00 ...: accepted */
+		}
+		_exit(bad ? 32 + (bad & 31) : 0);   /* the writer is not finished: nothing of interest is left to write */
+	}
+	int st; waitpid(pid, &st, 0);
+	if (WIFEXITED(st) && WEXITSTATUS(st) >= 32) {
+		int b = WEXITSTATUS(st) - 32;
+		if (b & (1 | 2 | 16)) viol("C08/increasing-key-refused", "keys of %" PRIu64 " bytes (%s order): a strictly greater key was refused (mask %d)", LK, reverse ? "long key first" : "empty key first", b);
+		if (b & (4 | 8)) viol("C08/non-increasing-key-accepted", "keys of %" PRIu64 " bytes (%s order): a key that is a proper prefix of / equal to the last accepted key was accepted (mask %d)", LK, reverse ? "long key first" : "empty key first", b);
+	} else if (!(WIFEXITED(st) && WEXITSTATUS(st) == 0)) viol("C08/abort-on-key-over-2GiB", "writer process died with status 0x%x while adding a key of %" PRIu64 " bytes", st, LK);
+	free(big);
+	statf(1, "c08big.%s", reverse ? "long-key-first" : "empty-key-first");
+	STAT("c08big.cases");
+	if (want_sample()) sample("c08big: keys \"\" / 00 x %" PRIu64 " / its prefixes and one-byte extension offered to a writer on /dev/null (%s)", LK, reverse ? "long key first" : "empty key first");
+	case_hash(LK * 2 + reverse);
+}
+
 int main(int argc, char **argv)
 {
 	args_t a;
@@ -223,6 +298,7 @@ int main(int argc, char **argv)
 	case_fn f = NULL;
 	if (!strcmp(a.sub, "c08")) f = case_c08;
 	else if (!strcmp(a.sub, "c08pre")) f = case_c08pre;
+	else if (!strcmp(a.sub, "c08big")) f = case_c08big;
 	else return 98;
 	return run_cases(&a, f);
 }
